@@ -267,7 +267,9 @@ func (vt *v2T) scenC04() {
 	c2 := vt.build("c04b"+proc, 0.8, perm())
 	extra := append(perm(),
 		v2Doc{Key: "License/Unrelated-One/license.txt", Cat: "License", Name: "Unrelated-One", Variant: "license.txt", Data: []byte("quux frobnicate xyzzy plugh wibble wobble flarp snork blivet grault garply waldo\n")},
-		v2Doc{Key: "Header/Unrelated-Two/header.txt", Cat: "Header", Name: "Unrelated-Two", Variant: "header.txt", Data: []byte("fred thud corge zork mumble grumble bletch foobar bazqux norf zot spqr\n")})
+		v2Doc{Key: "Header/Unrelated-Two/header.txt", Cat: "Header", Name: "Unrelated-Two", Variant: "header.txt", Data: []byte("fred thud corge zork mumble grumble bletch foobar bazqux norf zot spqr\n")},
+		// four words that an input below shares, in another order: the document survives the first pass and never matches
+		v2Doc{Key: "Header/Unrelated-Three/header.txt", Cat: "Header", Name: "Unrelated-Three", Variant: "header.txt", Data: []byte("deltaq charlieq bravoq alphaq\n")})
 	// in this one the tenth word of the dictionary (token id 10 = '\n' as a rune) is a very common one: token ids are handed
 	// to the diff library as runes, and nothing about a result may depend on which word has which id
 	extra = append([]v2Doc{{Key: "License/Unrelated-Zero/license.txt", Cat: "License", Name: "Unrelated-Zero", Variant: "license.txt",
@@ -316,6 +318,9 @@ func (vt *v2T) scenC04() {
 			nlong++
 		}
 	}
+	// notices and prose that no document of the base corpus resembles (what is reported for them must not depend on whether
+	// some unrelated document happens to share their words)
+	inputs = append(inputs, []byte("Copyright 2020 Foo Inc\nalphaq bravoq charlieq deltaq\nmore words here\n2021-03-04\n"))
 	// a lettered clause marker at the start of a line in one input, the same marker in the middle of a line in another
 	inputs = append(inputs,
 		[]byte("Terms of use\na. You may copy the software.\nb. You may modify the software.\nc. You may not remove this notice.\n"),
